@@ -52,8 +52,9 @@ package ship
 //@ func JsonFromEEBUSJson(json) trusted pure
 //@ func JsonIntoEEBUSJson(data) trusted pure
 
-//@ func (c *ShipConnection).parseMessage(msg, jsonFormat) pure
-//@   ensures len(msg) == 0 ==> result.0 == 0 && result.1 == nil
+//@ func (c *ShipConnection).parseMessage(msg, jsonFormat) pure [C07,C06]
+//@   ensures [C07] F1-empty: len(msg) == 0 ==> result.0 == 0 && result.1 == nil
+//@   ensures [C07] F2-header: len(msg) > 0 ==> result.0 == msg[0] && (!jsonFormat ==> len(result.1) == len(msg) - 1)
 
 // ---- state setting ----
 
